@@ -203,6 +203,10 @@ def make_case(rng, point, scene, kindname, variant):
     else:
         o["names"] = ["p", "q", "r"][:len(rbs)] if rng.random() < 0.8 or nm is None else list(nm[:len(rbs)])
     out = copy.deepcopy(scene["out"]) if has_out else None
+    if out is not None and inplace and has_default:
+        # inplace + out= copies out's non-tensor data into self's entries while self.empty(recurse=True) stand-ins built
+        # earlier still share those entry objects (aliasing the functional model does not have): same payloads there
+        same_payloads(S, out)
     if dev_mode == "absent":
         o["dev"] = "absent"
     elif dev_mode == "same":
@@ -217,7 +221,7 @@ def make_case(rng, point, scene, kindname, variant):
     if threads:
         front = "fast"
     elif keymode != "plain":
-        front = "named_apply" if (not has_out or variant % 7 == 3) else "fast"
+        front = "named_apply" if (not has_out or variant % 3 == 1) else "fast"
     else:
         front = ["apply", "fast", "apply"][variant % 3]
         if inplace and front == "apply" and variant % 2:
@@ -231,6 +235,18 @@ def make_case(rng, point, scene, kindname, variant):
     k = sum(1 for _ in I.walk(S2))
     case["perm"] = rng.sample(range(k), k) if threads == 2 else []
     return case
+
+
+def same_payloads(S, out):
+    if S[0] != "N" or out[0] != "N":
+        return
+    d = dict((k, c) for k, c in S[3])
+    for k, c in out[3]:
+        if k in d:
+            if c[0] == "T" and d[k][0] == "T":
+                c[2] = d[k][2]
+            else:
+                same_payloads(d[k], c)
 
 
 # ================================================================== running the real code
@@ -299,7 +315,7 @@ def run_real(case, threads=None):
             outobj = I.build_operand(case["out"], kindname, B, "out") if case["out"] is not None else None
     except Exception as e:  # noqa: BLE001
         return {"build_error": f"{type(e).__name__}: {e}"}
-    before = {"self": I.obs(selfobj, B), "others": [I.obs(x, B) for x in others], "out": I.obs(outobj, B)}
+    before = {"self": I.obs(selfobj, B, light=True), "others": [I.obs(x, B, light=True) for x in others], "out": I.obs(outobj, B, light=True)}
     fn = I.make_fn(case["opts"]["named"], set(case["none_pids"]), set(case["none_codes"]))
     th = case["threads"] if threads is None else threads
     ran = []
@@ -329,8 +345,8 @@ def run_real(case, threads=None):
     res["ran"] = ran
     try:
         cyc_out = outobj is not None and I.has_cycle(outobj)
-        res["after"] = {"self": I.obs(selfobj, B), "others": [I.obs(x, B) for x in others],
-                        "out": "cyclic" if cyc_out else I.obs(outobj, B)}
+        res["after"] = {"self": I.obs(selfobj, B, light=True), "others": [I.obs(x, B, light=True) for x in others],
+                        "out": "cyclic" if cyc_out else I.obs(outobj, B, light=True)}
     except RecursionError:
         res["after"] = {"self": None, "others": [], "out": "cyclic"}
     res["before"] = before
@@ -401,7 +417,7 @@ def model_line(case, ran=None):
     mode = "mt" if case["threads"] else "st"
     fwd_out = case["out"] if case["front"] != "named_apply" else None      # named_apply accepts out= and drops it
     k = sum(1 for _ in I.walk(case["self"]))
-    pi = list(ran) if ran else list(range(k))
+    pi = list(ran) if ran else list(range(k))        # ids beyond the number of tasks are ignored by the model
     return sx([Sym("apply"), Sym(mode), opts_sx(o), tree_sx(case["self"]), [tree_sx(t) for t in case["others"]],
                Sym("none") if fwd_out is None else [Sym("some"), tree_sx(fwd_out)],
                names_sx(o), o["con"], o["propagate"], model_nones(case, [case["self"]]), pi])
@@ -658,6 +674,11 @@ def check_case(case, mres):
                 fails.append(("mt:differs-from-single-threaded", case, {"mt": summarize(mt), "st": summarize(st), "diff": dk}, sig))
         real = real_mt
 
+    if case["threads"] == 2 and real.get("ran") is not None:
+        want = [i for i in case["perm"] if i < len(real["ran"])]
+        if real["ran"] != want:
+            mism.append(("executor:order", case, real["ran"], want))
+
     # ---- correspondence with the model
     if mres is not None:
         mo = model_obs(case, mres)
@@ -761,7 +782,7 @@ def mt_diff_kind(mt, st):
         return "st-raises-" + st["exc"]
     if mt["ret"] == "cyclic":
         return "mt-cyclic"
-    if st["ret"] is None and mt.get("ret_is") in ("self", "out") and mt["ret"] == mt["before"][mt["ret_is"]]:
+    if st["ret"] is None and mt.get("ret_is") in ("self", "out") and strip_lock(mt["after"][mt["ret_is"]]) == strip_lock(mt["before"][mt["ret_is"]]):
         return "extra-empty-nodes"          # nothing was written: self / out is returned where the other form returns None
     if strip_ident(erase_nested_names(mt["ret"])) == strip_ident(erase_nested_names(st["ret"])):
         return "names-only"
@@ -914,13 +935,7 @@ def main(R):
     ctx = mp.get_context("fork")
     t0 = time.time()
     with ctx.Pool(nproc) as pool:
-        mt2 = [i for i, c in enumerate(cases) if c["threads"] == 2]
-        rans = {}
-        for idxs, part in zip(chunks(mt2, nproc * 4), pool.map(prescan_ran, [[cases[i] for i in ch] for ch in chunks(mt2, nproc * 4)])):
-            for i, r in zip(idxs, part):
-                rans[i] = r
-        lines = [model_line(c, rans.get(i)) for i, c in enumerate(cases)]
-        R.extra["prescan_s"] = round(time.time() - t0, 1)
+        lines = [model_line(c, c["perm"]) for c in cases]
         t1 = time.time()
         mres = R.model(lines, shards=12) if ok else [None] * len(lines)
         R.extra["model_s"] = round(time.time() - t1, 1)
